@@ -157,6 +157,28 @@ func c08TokenShapes(src []byte) []c08Shape {
 				nextNC[i+1] >= 0 && toks[nextNC[i+1]].tok == token.RPAREN {
 				by["empty-import-group"] = append(by["empty-import-group"], c08Edit{t.off, toks[nextNC[i+1]].end - t.off, ""})
 			}
+			// -s: a struct ellipsis that is not the last element (`{...\n {a: int}\n}`): -s moves it to the end
+			if t.tok == token.LBRACK && anyPatStart(i) && encl[i] >= 0 && toks[encl[i]].tok == token.LBRACE {
+				k := nextNC[i+4]
+				if k >= 0 && toks[k].tok == token.COMMA {
+					k = nextNC[k]
+				}
+				if k >= 0 && toks[k].tok != token.RBRACE {
+					by["simplify-struct-ellipsis-not-last"] = append(by["simplify-struct-ellipsis-not-last"], c08Edit{t.off, toks[i+4].end - t.off, ""})
+				}
+			}
+			if t.tok == token.ELLIPSIS && encl[i] >= 0 && toks[encl[i]].tok == token.LBRACE {
+				k := nextNC[i]
+				if k >= 0 && toks[k].tok == token.IDENT && word(k) == "_" {
+					k = nextNC[k]
+				}
+				if k >= 0 && toks[k].tok == token.COMMA {
+					k = nextNC[k]
+				}
+				if k >= 0 && toks[k].tok != token.RBRACE {
+					by["simplify-struct-ellipsis-not-last"] = append(by["simplify-struct-ellipsis-not-last"], c08Edit{t.off, t.end - t.off, ""})
+				}
+			}
 			// -s: a struct ellipsis after an element that spans several lines (`{a:\n x, ...}`, `{c: 1 +\n 2\n ...}`)
 			if t.tok == token.ELLIPSIS && i > 0 && encl[i] >= 0 && toks[encl[i]].tok == token.LBRACE {
 				k := i - 1
@@ -201,21 +223,20 @@ func c08TokenShapes(src []byte) []c08Shape {
 			}
 			// a line break between the colon of a chained label and the next label: `a: b:\n c: 1`
 			chained := false
-			if t.tok == token.COLON && i+2 < len(toks) && gapNL(i, i+1) {
-				switch toks[i+1].tok {
+			j := nextNC[i] // the next token that is not a comment
+			if t.tok == token.COLON && j >= 0 && j+1 < len(toks) && gapNL(i, j) {
+				switch toks[j].tok {
 				case token.IDENT, token.STRING:
-					chained = toks[i+2].tok == token.COLON || toks[i+2].tok == token.OPTION || toks[i+2].tok == token.NOT
+					chained = toks[j+1].tok == token.COLON || toks[j+1].tok == token.OPTION || toks[j+1].tok == token.NOT
 				case token.LBRACK, token.LPAREN:
-					for cl, op := range match {
-						if op == i+1 && cl+1 < len(toks) {
-							chained = toks[cl+1].tok == token.COLON || toks[cl+1].tok == token.OPTION || toks[cl+1].tok == token.NOT
-						}
+					if cl, ok := closeOf[j]; ok && cl+1 < len(toks) {
+						chained = toks[cl+1].tok == token.COLON || toks[cl+1].tok == token.OPTION || toks[cl+1].tok == token.NOT
 					}
 				}
 			}
 			if chained {
 				by["line-break-inside-label-chain"] = append(by["line-break-inside-label-chain"],
-					c08Edit{t.end, toks[i+1].off - t.end, " "})
+					c08Edit{t.end, toks[j].off - t.end, " "})
 			}
 			continue
 		}
@@ -224,6 +245,27 @@ func c08TokenShapes(src []byte) []c08Shape {
 		// a comment directly before or after such an element
 		if nn >= 0 && anyPatStart(nn) || pn >= 0 && anyPatEnd(pn) {
 			add("simplify-comment-next-to-any-pattern-or-ellipsis", i)
+		}
+		// a free-standing comment (followed by an empty line) as the first thing in a struct body:
+		// `{\n// c\n\nx: 1\n}` (v2 makes it the doc comment of the first element)
+		if nn >= 0 && pn >= 0 && toks[pn].tok == token.LBRACE && gapNL(pn, pn+1) && nn > 0 &&
+			bytes.Count(src[toks[nn-1].end:toks[nn].off], []byte("\n")) >= 2 {
+			add("free-comment-first-in-struct-body", i)
+		}
+		// two comment groups separated by an empty line as the last things before a closing brace:
+		// `…\n// a\n\n// b\n}` (v2 merges the groups)
+		if nn >= 0 && toks[nn].tok == token.RBRACE && i > 0 && toks[i-1].tok == token.COMMENT &&
+			bytes.Count(src[toks[i-1].end:t.off], []byte("\n")) >= 2 {
+			for k := i; k < nn; k++ { // the whole last group
+				add("comment-groups-separated-by-empty-line-before-close-brace", k)
+			}
+		}
+		// -s: a free-standing comment (followed by an empty line) before a field whose quoted label -s unquotes
+		if nn >= 0 && toks[nn].tok == token.STRING && nn+1 < len(toks) && bytes.Count(src[t.end:toks[nn].off], []byte("\n")) >= 2 &&
+			(toks[nn+1].tok == token.COLON || toks[nn+1].tok == token.OPTION || toks[nn+1].tok == token.NOT) {
+			if w := word(nn); len(w) > 2 && w[0] == '"' && !ast.StringLabelNeedsQuoting(w[1:len(w)-1]) {
+				add("simplify-free-comment-before-unquoted-label", i)
+			}
 		}
 		// an own-line comment directly below a trailing comment: `a: 1 // c\n// d`
 		if i > 0 && toks[i-1].tok == token.COMMENT && i >= 2 && !gapNL(i-2, i-1) && gapNL(i-1, i) &&
@@ -309,9 +351,9 @@ func c08TokenShapes(src []byte) []c08Shape {
 			}
 		}
 	}
-	order := []string{"simplify-comment-next-to-any-pattern-or-ellipsis", "own-line-comment-directly-below-trailing-comment", "comment-inside-interpolation", "comment-inside-comprehension-header", "comment-after-selector-period",
+	order := []string{"simplify-free-comment-before-unquoted-label", "free-comment-first-in-struct-body", "comment-groups-separated-by-empty-line-before-close-brace", "simplify-comment-next-to-any-pattern-or-ellipsis", "own-line-comment-directly-below-trailing-comment", "comment-inside-interpolation", "comment-inside-comprehension-header", "comment-after-selector-period",
 		"comment-after-list-ellipsis", "comment-before-close-bracket-continued-on-its-line", "comment-first-inside-parentheses", "empty-import-group",
-		"simplify-struct-ellipsis-after-multi-line-element", "struct-ellipsis-on-the-line-of-the-previous-element",
+		"simplify-struct-ellipsis-not-last", "simplify-struct-ellipsis-after-multi-line-element", "struct-ellipsis-on-the-line-of-the-previous-element",
 		"comment-directly-after-open-bracket", "comment-between-colon-and-value",
 		"comment-between-operator-and-operand", "comment-before-close-of-index-or-call",
 		"comment-inside-label-brackets", "comment-before-close-of-import-group", "line-break-inside-label-chain"}
